@@ -694,6 +694,11 @@ func runStub(e *env) error {
 	}
 	var good []*stubDesc
 	for _, d := range descs {
+		if msg, isBad := bad[d.idx]; isBad && strings.HasPrefix(msg, fmt.Sprintf("g%d/", d.idx)) {
+			// the GENERATED package does not compile: property C07 decides that, nothing to run here
+			lines[d.idx] = (&Line{}).S("stubskip").S("generated-package-does-not-compile").String()
+			continue
+		}
 		if msg, isBad := bad[d.idx]; isBad {
 			// a driver that does not build against a generated package that compiles is a harness defect or a
 			// violation (the emitted API does not have the documented shape): report it
